@@ -105,6 +105,13 @@ func c04ForkProducer(c *fw.C, caseID string, idx int) {
 	} else if idx%3 == 1 {
 		contract, data, zts, amt = types.StakeContract, definition.ABIStake.PackMethodPanic(definition.StakeMethodName, int64(constants.StakeTimeUnitSec)), types.ZnnTokenStandard, big.NewInt(1*g.Zexp)
 	}
+	// a caller the random history has left without the funds falls back to the call without value
+	for _, u := range callers {
+		if bal, _ := A.Chain.GetFrontierAccountStore(u.Address).GetBalance(zts); amt.Sign() > 0 && (bal == nil || bal.Cmp(new(big.Int).Mul(amt, big.NewInt(2))) < 0) {
+			contract, data, zts, amt = types.PillarContract, definition.ABIPillars.PackMethodPanic(definition.DelegateMethodName, g.Pillar1Name), types.ZnnTokenStandard, big.NewInt(0)
+			break
+		}
+	}
 	// branch X: A confirms the calls of the later callers; its pillar generates their receives into A's pool
 	nLate := 1 + r.Intn(3)
 	var shared []*nom.AccountBlock
